@@ -347,7 +347,7 @@ def load_modules(flavour, repo):
     return out
 
 
-def run_calls(calls, mods, budget=None, progress=None):
+def run_calls(calls, mods, budget=None, progress=None, skip=()):
     """Execute the calls; returns list of ('ok', result, [in-place arrays]) or ('error', text).
     budget: optional line-event budget per call (deterministic non-termination verdict for interpreted code).
     progress: optional path; the index and name of the call about to run is written there first, so that the parent can
@@ -357,6 +357,9 @@ def run_calls(calls, mods, budget=None, progress=None):
         if progress:
             with open(progress, "w") as pf:
                 pf.write("%d %s.%s" % (idx, key, fn))
+        if idx in skip:
+            res.append(("skipped-hang", "left out: an earlier run of this batch did not get past this call"))
+            continue
         mod = mods.get(key)
         if isinstance(mod, Exception) or mod is None:
             res.append(("missing-module", repr(mod)))
@@ -385,7 +388,8 @@ def run_calls(calls, mods, budget=None, progress=None):
 def main(argv):
     if len(argv) >= 4 and argv[1] == "--run":
         flavour = argv[5] if len(argv) > 5 and argv[4] == "--flavour" else "ref"
-        budget = int(argv[7]) if len(argv) > 7 and argv[6] == "--budget" else None
+        budget = int(argv[argv.index("--budget") + 1]) if "--budget" in argv else None
+        skip = [int(x) for x in argv[argv.index("--skip") + 1].split(",")] if "--skip" in argv else []
         from . import bootstrap
         bootstrap.prepare()
         import warnings
@@ -397,7 +401,7 @@ def main(argv):
         exported = {k: sorted(n for n in dir(m) if not n.startswith("_") and callable(getattr(m, n)))
                     for k, m in mods.items() if not isinstance(m, Exception)}
         with open(argv[3], "wb") as f:
-            pickle.dump({"results": run_calls(calls, mods, budget, argv[3] + ".progress"), "files": files,
+            pickle.dump({"results": run_calls(calls, mods, budget, argv[3] + ".progress", skip), "files": files,
                          "exported": exported}, f)
         return 0
     print(__doc__)
